@@ -2,6 +2,7 @@
 
 from __future__ import annotations
 
+import copy
 import inspect
 import itertools
 import warnings
@@ -112,7 +113,10 @@ class DLTypeAnnotation(NamedTuple):
             msg = f"Invalid base type=<{tensor_type}> in DLType hint, expected a subtype of {_dtypes.SUPPORTED_TENSOR_TYPES}"
             raise TypeError(msg)
 
-        dltype_hint.optional = optional
+        if dltype_hint.optional != optional:
+            # annotation objects are shared through type aliases: never write the flag onto a shared object
+            dltype_hint = copy.copy(dltype_hint)
+            dltype_hint.optional = optional
         return (cls(tensor_type_hint=tensor_type, dltype_annotation=dltype_hint),)
 
 
